@@ -277,8 +277,73 @@ def check_symlinked_input(rng):
         shutil.rmtree(scratch, ignore_errors=True)
 
 
+def check_symlinked_recipe_in_site():
+    """a recipe file inside the tree that is a symlink to a recipe of another directory: its relative links are relative to where it
+    stands in the tree (each copy shows the file next to it), byte for byte"""
+    out = []
+    scratch = gen_site.scratch_root()
+    try:
+        root = scratch / "site"
+        (root / "weeknight").mkdir(parents=True)
+        (root / "party").mkdir()
+        (root / "weeknight" / "curry.md").write_text("# Curry for 2\n\n    1 x\n\n![I](photo.jpg)\n\n[L](notes.txt)\n")
+        (root / "weeknight" / "photo.jpg").write_bytes(b"weeknight photo")
+        (root / "weeknight" / "notes.txt").write_bytes(b"weeknight notes")
+        (root / "party" / "photo.jpg").write_bytes(b"party photo, another file")
+        (root / "party" / "notes.txt").write_bytes(b"party notes")
+        os.symlink("../weeknight/curry.md", root / "party" / "curry.md")
+        site_out = scratch / "out"
+        generate_static_site(root, site_out, 2)
+        for d in ("weeknight", "party"):
+            for f in ("photo.jpg", "notes.txt"):
+                dst = site_out / "assets" / d / f
+                if not dst.exists() or dst.read_bytes() != (root / d / f).read_bytes():
+                    out.append(("C16:asset-of-symlinked-recipe-not-copied", "assets/%s/%s is %s" % (d, f, "missing" if not dst.exists() else "not the file next to the recipe")))
+            page = (site_out / "serves2" / d / "curry.html").read_text()
+            for m in re.findall(r'(?:src|href)="([^"]*(?:photo\.jpg|notes\.txt))"', page):
+                tgt = gen_site.resolve("/serves2/%s/curry.html" % d, m)
+                if tgt != "/assets/%s/%s" % (d, m.rsplit("/", 1)[-1]):
+                    out.append(("C16:symlinked-recipe-shows-another-directorys-file", "%s/curry.md: %r resolves to %s" % (d, m, tgt)))
+        return out
+    finally:
+        shutil.rmtree(scratch, ignore_errors=True)
+
+
+def check_rebuild_after_readme_edit():
+    """a readme that is edited to point at another local file between two generations in one process: the second site has that file"""
+    out = []
+    scratch = gen_site.scratch_root()
+    try:
+        root = scratch / "site"
+        (root / "puddings").mkdir(parents=True)
+        (root / "puddings" / "rice.md").write_text("# Rice pudding for 2\n\n    1 x\n")
+        (root / "puddings" / "old.png").write_bytes(b"old picture")
+        (root / "puddings" / "new.png").write_bytes(b"new picture!")
+        (root / "puddings" / "README.md").write_text("# Puddings\n\n![I](old.png)\n")
+        (root / "README.md").write_text("# Home\n\n[L](puddings/old.png)\n")
+        generate_static_site(root, scratch / "out1", 2)
+        (root / "puddings" / "README.md").write_text("# Puddings\n\n![I](new.png)\n")
+        (root / "README.md").write_text("# Home\n\n[L](puddings/new.png)\n")
+        generate_static_site(root, scratch / "out2", 2)
+        dst = scratch / "out2" / "assets" / "puddings" / "new.png"
+        if not dst.exists() or dst.read_bytes() != b"new picture!":
+            out.append(("C16:file-linked-after-edit-not-copied", "assets/puddings/new.png is missing from the site generated after the readme was changed to show it"))
+        for page in ("index.html", "categories/puddings/index.html"):
+            if "old.png" in (scratch / "out2" / page).read_text():
+                out.append(("C16:page-shows-file-of-earlier-generation", "%s still refers to old.png" % page))
+        return out
+    finally:
+        shutil.rmtree(scratch, ignore_errors=True)
+
+
 def oracle(run):
     rng = run.rng
+    run.case(("oracle-symlinked-recipe",), True, kind="symlinked-recipe")
+    for sig, detail in check_symlinked_recipe_in_site():
+        run.violate(sig, detail, {"symlinked_recipe": True})
+    run.case(("oracle-readme-edit",), True, kind="rebuild-after-readme-edit")
+    for sig, detail in check_rebuild_after_readme_edit():
+        run.violate(sig, detail, {"readme_edit": True})
     run.case(("oracle-symlinked-input",), True, kind="symlinked-input")
     for sig, detail in check_symlinked_input(rng):
         run.violate(sig, detail, {"symlinked_input": True})
@@ -301,6 +366,11 @@ def oracle(run):
 
 def replay(run, obj):
     import random
+    if obj["replay"].get("symlinked_recipe") or obj["replay"].get("readme_edit"):
+        res = check_symlinked_recipe_in_site() if obj["replay"].get("symlinked_recipe") else check_rebuild_after_readme_edit()
+        for x in res:
+            print(*x)
+        return bool(res)
     if obj["replay"].get("symlinked_input"):
         res = check_symlinked_input(random.Random(0))
         for x in res:
